@@ -300,6 +300,9 @@ def ugrid(ny=2, nx=3, *, split=(), merge=(), start_index=0, fill='auto', transpo
         if tr:
             arr, dims = arr.T.copy(), dims[::-1]
         data_vars[name] = xarray.DataArray(arr, dims=dims, attrs=attrs)
+        if fmode == 'nan':
+            # what xarray hands over after decoding an integer table with a _FillValue: float data, the file's type and fill in .encoding
+            data_vars[name].encoding.update({'dtype': numpy.dtype('int32'), '_FillValue': numpy.int32(-999)})
     put('Mesh2_face_nodes', faces, maxn, 'nMesh2_face', 'nMaxMesh2_face_nodes', 'face_node_connectivity', transposed)
     has_edge_dim = bool({'edge_node', 'edge_face'} & set(tables)) or edge_dimension is True
     if edge_dimension is True or (edge_dimension == 'auto' and has_edge_dim):
